@@ -554,6 +554,11 @@ func (e *dbhistEngine) Exec(tr *Trace, x *X) {
 					}
 					if !dup && !unknown && !wrong {
 						x.Probe("fresh_append_failed")
+						if op.T <= 1 {
+							// a 32-byte hash / a certificate that the database does not hold, of a
+							// supported type: none of the error cases of the statement applies
+							fail("dbhist.fresh_append_succeeds", "append of a new, well-sized %s entry was refused (%v); the statement reserves errors for duplicates, unknown types and wrong sizes", typeSig(op.T), err)
+						}
 					}
 					return
 				}
@@ -598,6 +603,7 @@ func (e *dbhistEngine) Exec(tr *Trace, x *X) {
 					}
 					if present {
 						x.Probe("present_remove_failed")
+						fail("dbhist.present_remove_succeeds", "remove of an entry the database holds (the membership view has it) reported %v", err)
 					}
 					return
 				}
